@@ -151,3 +151,51 @@ theorem eliminate_upstream (Fx : Matrix m p K) (Fy₁ : Matrix m n₁ K) (Fy₂ 
     rw [hX₁, Matrix.mul_neg, ← Matrix.mul_assoc, Matrix.mul_nonsing_inv _ hA, Matrix.one_mul])
 
 end GV.C07.Alg
+
+namespace GV.C07.Alg
+
+open Matrix
+
+set_option linter.unusedSectionVars false
+
+variable {K : Type*} [Field K]
+variable {n p m : Type*} [Fintype n] [DecidableEq n] [Fintype p] [DecidableEq p]
+  [Fintype m] [DecidableEq m]
+
+/-! ### Change of variables (units): the closed form is equivariant -/
+
+/-- **Change of variables.**  Express the functions in new coordinates `F' = P F`, the design
+    variables in `x = Qi x'`, the couplings in `y' = S y` (`Si = S⁻¹`) and take any invertible
+    combination `T` of the residuals: the closed form of the transformed partial Jacobians is the
+    transformed closed form.  No absolute size of any block enters the result. -/
+theorem implicit_change_of_variables {m' p' : Type*} [Fintype m'] [DecidableEq m'] [Fintype p']
+    [DecidableEq p'] (Fx : Matrix m p K) (Fy : Matrix m n K) (Ry : Matrix n n K)
+    (Rx : Matrix n p K) (P : Matrix m' m K) (Qi : Matrix p p' K) (S Si T : Matrix n n K)
+    (hS : Si * S = 1) (hT : IsUnit T.det) (hR : IsUnit Ry.det) :
+    implicit (P * Fx * Qi) (P * Fy * Si) (T * Ry * Si) (T * Rx * Qi) =
+      P * implicit Fx Fy Ry Rx * Qi := by
+  have hSi : IsUnit Si.det := Matrix.isUnit_det_of_right_inverse hS
+  have hdet : IsUnit (T * Ry * Si).det := by
+    rw [Matrix.det_mul, Matrix.det_mul]; exact (hT.mul hR).mul hSi
+  obtain ⟨X, hX⟩ : ∃ X : Matrix n p K, X = -(Ry⁻¹ * Rx) := ⟨_, rfl⟩
+  have hRX : Ry * X = -Rx := by
+    rw [hX, Matrix.mul_neg, ← Matrix.mul_assoc, Matrix.mul_nonsing_inv _ hR, Matrix.one_mul]
+  have hsol : T * Ry * Si * (S * X * Qi) = -(T * Rx * Qi) := by
+    calc T * Ry * Si * (S * X * Qi) = T * Ry * (Si * S) * X * Qi := by
+          simp only [Matrix.mul_assoc]
+      _ = T * (Ry * X) * Qi := by rw [hS, Matrix.mul_one, Matrix.mul_assoc T Ry X]
+      _ = -(T * Rx * Qi) := by rw [hRX, Matrix.mul_neg, Matrix.neg_mul]
+  rw [← direct_eq_implicit (P * Fx * Qi) (P * Fy * Si) (T * Ry * Si) (T * Rx * Qi) (S * X * Qi)
+    hdet hsol, ← direct_eq_implicit Fx Fy Ry Rx X hR hRX]
+  calc P * Fx * Qi + P * Fy * Si * (S * X * Qi) = P * Fx * Qi + P * Fy * (Si * S) * X * Qi := by
+        simp only [Matrix.mul_assoc]
+    _ = P * (Fx + Fy * X) * Qi := by
+        rw [hS, Matrix.mul_one, Matrix.mul_add, Matrix.add_mul, Matrix.mul_assoc P Fy X]
+
+/-- Entry of a matrix scaled on the rows and on the columns by diagonal matrices. -/
+theorem diagonal_mul_mul_diagonal_apply {r c : Type*} [Fintype r] [DecidableEq r] [Fintype c]
+    [DecidableEq c] (a : r → K) (b : c → K) (M : Matrix r c K) (i : r) (j : c) :
+    (diagonal a * M * diagonal b) i j = a i * M i j * b j := by
+  rw [Matrix.mul_diagonal, Matrix.diagonal_mul]
+
+end GV.C07.Alg
